@@ -410,6 +410,9 @@ func (sc SCTPData) SerializeTo(b gopacket.SerializeBuffer, opts gopacket.Seriali
 	binary.BigEndian.PutUint16(bytes[10:12], sc.StreamSequence)
 	binary.BigEndian.PutUint32(bytes[12:16], uint32(sc.PayloadProtocol))
 	copy(bytes[16:], payload)
+	for i := 16 + len(payload); i < len(bytes); i++ {
+		bytes[i] = 0 // padding
+	}
 	return nil
 }
 
@@ -571,6 +574,9 @@ func (sc SCTPSack) SerializeTo(b gopacket.SerializeBuffer, opts gopacket.Seriali
 	offset := 16 + 2*len(sc.GapACKs)
 	for i, v := range sc.DuplicateTSNs {
 		binary.BigEndian.PutUint32(bytes[offset+i*4:], v)
+	}
+	for i := length; i < len(bytes); i++ {
+		bytes[i] = 0 // padding
 	}
 	return nil
 }
@@ -798,6 +804,9 @@ func (sc SCTPCookieEcho) SerializeTo(b gopacket.SerializeBuffer, opts gopacket.S
 	bytes[1] = sc.Flags
 	binary.BigEndian.PutUint16(bytes[2:4], uint16(length))
 	copy(bytes[4:], sc.Cookie)
+	for i := length; i < len(bytes); i++ {
+		bytes[i] = 0 // padding
+	}
 	return nil
 }
 
